@@ -201,6 +201,8 @@ class CBloomDriver:
                                   lambda: f"second live filter (est {self.case['est'] + 7}) fed the SAME hash list after add_alt({k!r},{n}) on "
                                           f"the first: check({k!r}) -> {r} < {self.shadow_true[k]}")
                         self.feats.add("shared_hash_list_second_filter")
+                if hs is not getattr(self, "scratch", None):
+                    hs[:] = [0] * len(hs)  # the list hashes() returned is the caller's to reuse: the filter must not be holding on to it
             else:
                 ctx.call(self.noexc, o.add, k, n)
             self.true[k] += n
